@@ -11,12 +11,12 @@ def run(ctx):
     T.prepare(ctx, PROPS)
     ng, nc = T.sizes(ctx)
     n = ng + nc // 2
-    worlds = T.generate(ctx, n - n // 3, 0, force={"release_tg": True, "dag": True})
+    worlds = T.generate(ctx, n - n // 2, 0, force={"release_tg": True, "dag": True})
     # parents SCHEDULED by an earlier invocation with their FAST strategy (remaining time < slowest runtime), re-offered
-    worlds += T.generate(ctx, n // 3, 0, force={"release_tg": True, "dag": True, "sched_fast_parent": True, "retract": True})
-    results = T.run_worlds(worlds, probe=T.probe_spec(ctx, ["c11"]))
-    ctx.rules.append("a third of the worlds have a parent SCHEDULED earlier with the faster of two strategies (remaining time differs from "
-                     "the slowest runtime) and re-offered; adversarial probes: for (parent, child) pairs with variables the live model is "
+    worlds += T.generate(ctx, n // 2, 0, force={"release_tg": True, "dag": True, "sched_fast_parent": True, "retract": True})
+    results = T.run_worlds(worlds, probe=T.probe_spec(ctx, ["c11"], max_pairs=8))
+    ctx.rules.append("half of the worlds have a parent SCHEDULED earlier with the faster of two strategies (remaining time differs from "
+                     "the slowest runtime) and re-offered; adversarial probes: for EVERY (parent, child) pair with variables (at most 8 per world, re-offered SCHEDULED parents first) the live model is "
                      "re-optimised to minimise start(child) - start(parent) - chosen runtime of the parent with the child placed; every "
                      "assignment found goes through the monitors")
     ctx.rules.append(
